@@ -577,10 +577,15 @@ class List(list, base.Symbolic, pg_typing.CustomTyping):
               f'attempt to assign sequence of size {len(replacements)} to '
               f'extended slice of size {len(positions)}')
       updates = []
-      for pos, r in zip(positions, replacements):
-        update = self._set_item_without_permission_check(pos, r)
-        if update is not None:
-          updates.append(update)
+      try:
+        for pos, r in zip(positions, replacements):
+          update = self._set_item_without_permission_check(pos, r)
+          if update is not None:
+            updates.append(update)
+      except Exception:
+        if updates:
+          self._reset_caches_along([])
+        raise
       if flags.is_change_notification_enabled() and updates:
         self._notify_field_updates(updates)
     elif isinstance(index, numbers.Integral):
@@ -671,9 +676,11 @@ class List(list, base.Symbolic, pg_typing.CustomTyping):
     if n <= 0:
       self.clear()
     else:
+      # NOTE: one `extend` for the whole repetition, so that the call delivers
+      # a single change event.
       items = list(self.sym_values())
-      for _ in range(n - 1):
-        self.extend(items)
+      if n > 1:
+        self.extend(items * (n - 1))
     return self
 
   def __rmul__(self, n: int) -> 'List':
@@ -755,10 +762,17 @@ class List(list, base.Symbolic, pg_typing.CustomTyping):
           f'({len(self) + len(other)}) exceeds max size ({self.max_size}).')
 
     updates = []
-    for v in other:
-      update = self._set_item_without_permission_check(len(self), v)
-      if update is not None:
-        updates.append(update)
+    try:
+      for v in other:
+        update = self._set_item_without_permission_check(len(self), v)
+        if update is not None:
+          updates.append(update)
+    except Exception:
+      # The elements before the rejected one stay: the cached facts of the
+      # list and its ancestors must not outlive them.
+      if updates:
+        self._reset_caches_along([])
+      raise
 
     if flags.is_change_notification_enabled() and updates:
       self._notify_field_updates(updates)
